@@ -17,7 +17,7 @@ from checks.c14 import Model, decode_insts
 
 HERE = os.path.dirname(os.path.abspath(__file__))
 VERIF = os.path.dirname(HERE)
-EXTRACTORS = ["stepfile", "instmgr", "attrnull", "enums", "threading"]
+EXTRACTORS = ["stepfile", "instmgr", "attrnull", "enums", "threading", "p21rw"]
 STATES = ["completeSE", "incompleteSE", "newSE", "deleteSE"]
 LETTER = {"completeSE": "C", "incompleteSE": "I", "newSE": "N", "deleteSE": "D"}
 
